@@ -277,3 +277,96 @@ pub fn use_inline_res(x: u32) -> SResult<u32> {
     let q = inl_half(h + 2)?;
     Ok(q + u32::from(INL_BIAS))
 }
+
+// ---- struct literals, `&mut self` as state passing, message locals / parameters ----
+
+#[derive(Debug, Clone, Copy, PartialEq, Eq)]
+pub struct Counter {
+    pub pos: u16,
+    pub left: u8,
+    pub step: u8,
+}
+
+fn inl_limit(what: &str, v: u8, lim: u8) -> SResult<u8> {
+    if v > lim {
+        let msg = format!("{} too big (limit {})", what, lim);
+        return Err(SError::TooBig(msg));
+    }
+    Ok(lim - v)
+}
+
+impl Counter {
+    // shorthand fields
+    pub fn make(pos: u16, left: u8, step: u8) -> Self {
+        Self { pos, left, step }
+    }
+
+    // explicit fields in an order different from the declaration; the first one may overflow
+    pub fn rotated(self) -> Counter {
+        Counter {
+            step: self.left + 1,
+            left: self.step,
+            pos: self.pos,
+        }
+    }
+
+    // the shape of an iterator's `next`: early `return`, assignments in both branches of a tail
+    // `if`, compound assignments that can overflow
+    pub fn advance(&mut self) -> Option<u16> {
+        if self.left == 0 {
+            return None;
+        }
+
+        if self.left > self.step {
+            let at = self.pos;
+            self.left -= self.step;
+            self.pos += self.step as u16 * 257;
+            Some(at)
+        } else {
+            let at = self.pos;
+            self.left = 0;
+            Some(at)
+        }
+    }
+
+    // assignments in the arms of a tail `match`, early return after an assignment, unit result
+    pub fn nudge(&mut self, k: u8) {
+        self.step ^= k;
+        match k {
+            0 => {
+                self.pos = 0;
+            }
+            1 | 2 => {
+                self.pos *= 2;
+                if self.pos > 1000 {
+                    return;
+                }
+                self.left &= 0x0f;
+            }
+            _ => self.left |= 0x80,
+        }
+    }
+
+    // a message bound by `let msg = format!(..)` is only an error payload
+    pub fn checked_step(&self, lim: u8) -> SResult<u8> {
+        if self.step > lim {
+            let msg = format!("step {} is larger than {}", self.step, lim);
+            return Err(SError::TooBig(msg));
+        };
+        Ok(self.step)
+    }
+}
+
+// a `&str` parameter of an inlined helper is message text
+pub fn use_msg_param(v: u8) -> SResult<u8> {
+    let r = inl_limit("value", v, 100)?;
+    Ok(r + 1)
+}
+
+// `None` / `Some` of a struct
+pub fn maybe_counter(k: u8) -> Option<Counter> {
+    if k == 0 {
+        return None;
+    }
+    Some(Counter::make(k as u16 * 300, k, 1))
+}
